@@ -95,7 +95,7 @@ def record (s : St) (xo x : Pt) (y : Rat) (sd : Option Rat) (recordDup : Bool) :
   else
     let dup : Option (Nat × Rat) :=
       match sd with
-      | some sdv => (firstMatch x s.rows).map (fun i => (i, sdv))
+      | some sdv => if s.he then (firstMatch x s.rows).map (fun i => (i, sdv)) else none     -- merged only under SPECIFIED noise
       | none => none
     match sd, dup with
     | some _, some (i, sdv) =>
